@@ -134,7 +134,7 @@ pub fn run_prog(prop: &str, prog: Program, cs: u64, thorough: bool) -> (Program,
     let mut rep = Report::default();
     {
         let ix = Index::build(&tr.events);
-        let cx = Cx { prog: &prog, tr: &tr, ix: &ix };
+        let cx = Cx { prog: &prog, tr: &tr, ix: &ix, mt: oracle::ENGINE_MT };
         oracle::check(prop, &cx, &mut rep);
     }
     (prog, tr, rep)
@@ -144,10 +144,11 @@ pub fn witness_json(prop: &str, profile: &str, cs: u64, variant: usize, thorough
     let mut s = String::new();
     let _ = write!(
         s,
-        "{{\n \"property\": {}, \"rule\": {}, \"sig\": {}, \"engine\": \"L1-vexec\", \"profile\": {}, \"case_seed\": {}, \"variant\": {}, \"thorough\": {}, \"policy\": {},\n \"message\": {},\n \"witness_events\": {:?},\n \"program\": {},\n \"trace\": [\n",
+        "{{\n \"property\": {}, \"rule\": {}, \"sig\": {}, \"engine\": {}, \"profile\": {}, \"case_seed\": {}, \"variant\": {}, \"thorough\": {}, \"policy\": {},\n \"message\": {},\n \"witness_events\": {:?},\n \"program\": {},\n \"trace\": [\n",
         jstr(prop),
         jstr(v.rule),
         jstr(&v.sig),
+        jstr(if oracle::ENGINE_MT { "L2-mt" } else { "L1-vexec" }),
         jstr(profile),
         cs,
         variant,
@@ -217,7 +218,11 @@ pub fn run_shard(a: &ShardArgs) {
                     runs.push((prog, tr, rep, String::new()));
                 }
             }
+            let mut watchdog = false;
             for (variant, (prog, tr, rep, label)) in runs.into_iter().enumerate() {
+                if oracle::ENGINE_MT && tr.inconclusive() {
+                    watchdog = true;
+                }
             if !label.is_empty() {
                 *counters.entry(format!("fault_table.{label}")).or_insert(0) += 1;
                 let hit = tr.events.iter().any(|e| matches!(e.k, log::K::Fault { .. }));
@@ -283,6 +288,11 @@ pub fn run_shard(a: &ShardArgs) {
                     cs
                 ));
             }
+            }
+            if watchdog {
+                // L2 watchdog: client threads may be blocked for good; stop this shard here (inconclusive)
+                timed_out = true;
+                break 'outer;
             }
             k += a.nshards;
         }
